@@ -69,6 +69,13 @@ CHECKS["C05"] = dict(
     note="Proved: quantifiers over events, histories, event lists. Sampled: the quantifier over queries (translation validation of the emitted program; counts and feature histogram in the evidence). Trusted: Coq kernel; Cpp/Exec.v as the model of the emitted C++ subset; the fail-closed parser of the emitted text (re-print compared with the emitted lines); user C++ blocks and math functions as functions of their arguments; extraction and the OCaml driver.",
     technique="verified static checker (relational two-run proof by mutual induction) + translation validation + differential multi-context execution",
 )
+CHECKS["C14"] = dict(
+    category="proof",
+    text="The InjectCodeBlock field list, the _ib_fetch properties, the info[...] wiring of write_cpp_files, the file lists of the three executors and every template they render (mini-Jinja parse) are regenerated from /repo on every run. Coq proves for every configuration that a template with a slot renders as (text before) ++ (query's own items) ++ (every line of the field, kept blocks in order, lines in order, each wrapped by the static text of the loop body, verbatim) ++ (text after), and that nothing else in the package depends on those lines (regions_generic); by computation on the regenerated value that every dataclass field has exactly one such slot in the ATLAS package at its documented place and that both CMS backends have the body-include slot (C14_all_fields_have_slot, C14_regions, C14_cms_body_includes); and for the hand model of process_metadata that the kept blocks are the first block of each name in order iff same-name blocks are identical, that a conflict, an unknown field or a missing name is ValueError and nothing else is (C14_dedup, C14_dedup_once, C14_dedup_conflict, C14_unknown_field, C14_error_class). The extracted model is compared, whole package, with what the three real executors write for generated metadata lists; an independent oracle of the property text checks the implementation's files by hand-written anchors.",
+    design_ref="5.14",
+    note="Trusted: Coq kernel incl. vm_compute; the fail-closed translator templates.py (mini-Jinja parser self-tested against jinja2, Python ast of the dataclass / executor wiring / backend executors; normal forms of _ib_fetch, _copy_template_file and the render loop compared textually); jinja2's insertion semantics (hand model, validated by the whole-package comparison on lines containing template syntax, quotes, backslashes, <>&, non-ASCII, newlines); the hand-written documented-place table; extraction and the OCaml driver. The correspondence and the oracle are tests bounded by the generator. Metadata values other than str / list of str are out of scope.",
+    technique="Coq proof (generic lemmas over the template AST + computation over artefacts regenerated from source) + differential whole-package comparison + anchor-based oracle",
+)
 NOT_YET = {}
 
 def main():
